@@ -445,8 +445,8 @@ def first_diff(a, b, path=""):
 class Case:
     def __init__(self, fams, texts, ops, opts="-", hops=None):
         self.fams, self.texts, self.ops, self.opts = fams, texts, ops, opts
-        # the history without read operations, with namespace lookups (c18hist only)
-        self.hops = hops if hops is not None else [o for o in ops if o not in ("T", "C")]
+        # the history without ClearEntryCache, with namespace lookups (c18hist only)
+        self.hops = hops if hops is not None else [o for o in ops if o != "C"]
 
     def replay(self):
         return dict(families=self.fams, ops=self.ops, hops=self.hops, opts=self.opts, texts=self.texts)
@@ -699,8 +699,8 @@ def with_ns_ops(rnd, c):
     nss = sorted({it["ns"] for t in c.texts for it in t["items"] if it["good"] and it["ns"]}) + ["urn:none"]
     out = []
     for op in c.ops:
-        if op in ("T", "C"):
-            continue                      # read operations exist in c18proc only
+        if op == "C":
+            continue                      # ClearEntryCache exists in c18proc only
         out.append(op)
         if rnd.random() < 0.3:
             out.append("N" + hx(rnd.choice(nss)))
